@@ -118,7 +118,11 @@ def run(program, timeout=240):
     errf = tempfile.TemporaryFile(mode="w+")
     p = subprocess.Popen([exe], stdin=subprocess.PIPE, stdout=subprocess.PIPE, stderr=errf, text=True,
                          bufsize=1, env=dict(os.environ, RUST_BACKTRACE="0"))
-    killer = threading.Timer(timeout, p.kill)
+    fired = []
+    def _backstop():
+        fired.append(1)
+        p.kill()
+    killer = threading.Timer(timeout, _backstop)
     killer.start()
     pairs, gcs, refs, dead = [], 0, {}, False
 
@@ -138,7 +142,9 @@ def run(program, timeout=240):
                 rc = p.wait(timeout=10)
             except subprocess.TimeoutExpired:
                 p.kill(); rc = p.wait()
-            pairs.append((op, f"crash:rc={rc}"))
+            # the wall-clock backstop of this harness (not hx_gc's own watchdog, which answers `timeout`): the program did not
+            # finish in `timeout` seconds — under load that says nothing about mmtk-core; `run_many` re-runs it alone
+            pairs.append((op, f"timeout # wall-clock backstop of the harness fired after {timeout}s" if fired else f"crash:rc={rc}"))
             return None
         res = E.canon(line.rstrip("\n"))
         pairs.append((op, res))
@@ -212,7 +218,11 @@ def run_many(programs, jobs=8, timeout=240):
         for key in sorted({(p.fs, p.unified_ref) for p in programs}):
             hx_gc_exe(*key)
     with ThreadPoolExecutor(jobs) as ex:
-        return list(ex.map(lambda p: run(p, timeout), programs))
+        traces = list(ex.map(lambda p: run(p, timeout), programs))
+    for i, tr in enumerate(traces):
+        if tr.pairs and "wall-clock backstop" in tr.pairs[-1][1]:
+            traces[i] = run(programs[i], timeout * 5)       # alone, with a generous budget: a real hang is still a `timeout`
+    return traces
 
 
 # ------------------------------------------------------------------------------------------------
@@ -1365,8 +1375,10 @@ def suite(name, seed, tier):
                     elif name == "cycles":
                         if not info["collects"]:
                             continue
+                        if thorough and fs != "fs_main" and rep >= 1:
+                            continue      # one repetition per plan x workers on the secondary feature sets (wall-clock budget)
                         mk = [lambda: gen_cycles(rnd, plan, info, fs, rnd.choice([16, 32]) * MB if not thorough else rnd.choice([16, 32, 64]) * MB,
-                                                 10 if not thorough else 60, w)]
+                                                 10 if not thorough else 40, w)]
                     for f in mk:
                         p = f()
                         p.yield_seed = ys
